@@ -20,7 +20,7 @@ FLOORS = {
     'thorough': {'evaluations': 80000, 'distinct_nontrivial': 12000, 'queries_judged': 600000, 'slots_filled': 150,
                  'events_judged': 50000, 'iterate_judged': 80000, 'quantified_trees': 6000},
 }
-BUDGET = {'quick': {'exprs': 25000, 'props': 5000}, 'thorough': {'exprs': 220000, 'props': 60000}}
+BUDGET = {'quick': {'exprs': 25000, 'props': 5000}, 'thorough': {'exprs': 1500000, 'props': 300000}}
 TIMEOUT = {'quick': 900, 'thorough': 7200}
 
 
